@@ -30,6 +30,7 @@ def tables(script_text, probe_classes, command="cmd"):
         return {"start": A["start"], "lits": lits, "tr": tr}
     vm = conv(rd["main"])
     vm["subs"] = [conv(s) for s in rd["subs"]]
+    vm["subids"] = list(rd.get("sub_ids", []))       # wrapper numbers `_<cmd>_subword_N`, aligned with subs
     return vm
 
 
